@@ -87,7 +87,7 @@ PROPS = {
         rule="case = group size 2-6 (thorough occasionally 7-12), threshold 1..n, polynomial kinds (library-random, deterministic, small, near-N, shared), "
              "CreationPeriod 4-12, a schedule (permutation of submissions per round + block boundaries) and per-member deviations: round 1 (bad A0 / one-time "
              "proof, short/long commitments, replay, wrong member id, mismatch, negated commitments, stop), round 2 (flipped / other scalar / +n / wrong nonce / "
-             "wrong key / swapped / short / long shares, stop), round 3 (false, mixed, bad key-sym (also with a proof re-made consistently for the wrong key-sym, so that only the second half of the equality proof can reject it), bad signature, non-member, self, impersonated complaints, one MsgComplain mixing the sender's own complaint with an entry naming ANOTHER member as complainant at position 1 or later, bad confirm, stop), duplicates, out-of-round and non-member messages; non-trivial = >=1 deviation applied AND rounds 1,2,3 all reached; "
+             "wrong key / swapped / short / long shares, one share of malformed byte length in the first / a middle / the last slot, a correctly encrypted share whose 32-byte plaintext lies in [N, 2^256), stop), round 3 (false, mixed, bad key-sym (also with a proof re-made consistently for the wrong key-sym, so that only the second half of the equality proof can reject it), bad signature, non-member, self, impersonated complaints, one MsgComplain mixing the sender's own complaint with an entry naming ANOTHER member as complainant at position 1 or later, bad confirm, stop; one member sending TWO round-3 messages - complain/confirm in either order or twice the same kind, same or later block, with honest justified complaints scheduled after the pair), curve points of otherwise unchanged messages in uncompressed / hybrid encoding (one-time key, A0, higher commitments, complaint key-sym; acceptance follows the tx result), duplicates, out-of-round and non-member messages; non-trivial = >=1 deviation applied AND rounds 1,2,3 all reached; "
              "distinct = hash of case JSON",
         explanation="honest members are driven by the daemon's own round-3 code (cylinder hook) on the group state read through the chain's querier; the harness "
                     "knows every polynomial and decides share consistency with math/big: ACTIVE => group key == sum of constant-term commitments == (sum a_j0)G, "
@@ -218,7 +218,7 @@ PROPS = {
                 dict(test="TestC06Chain", pkg="c06", quick=(16, 10), thorough=(16, 500), timeout=dict(quick=900, thorough=3400))],
         rule="Pure: lists of 0-40 validator prices (powers 1/small/equal/dominant >25% and >50%/near 2^63, timestamps with ties, prices 0/1/2^64-1, all "
              "statuses) with quorum power at total+{-1,0,1} and exact half-power crossings constructed. Chain: 3-7 validators bonded/unbonded/oracle-"
-             "active or not submitting prices with drawn timestamps/statuses, block times around the feed interval, feeds parameter changes through real governance proposals (MaxInterval lowered below stored feed intervals with report ages placed in (MaxInterval, interval], MinInterval, PowerStepThreshold, MaxCurrentFeeds, CooldownTime, GracePeriod). Non-trivial = >=3 AVAILABLE entries "
+             "active or not submitting prices with drawn timestamps/statuses, block times around the feed interval, feeds parameter changes through real governance proposals (MaxInterval lowered below stored feed intervals with report ages placed in (MaxInterval, interval], MinInterval, PowerStepThreshold, MaxCurrentFeeds, CooldownTime, GracePeriod), msg.Timestamp earlier / later than the block time inside and at the allowed discrepancy (reports are dated by their block), a reporting validator leaving and re-entering the bonded set through undelegation / delegation, and a delegator re-vote that re-orders the current feeds followed by partial reports. Non-trivial = >=3 AVAILABLE entries "
              "with a timestamp tie or a section boundary inside one entry's power, or a status comparison at/next to equality; distinct = hash of case JSON",
         explanation="reference over big.Rat written from x/feeds/README.md and the statement (filter AVAILABLE, stable sort time desc/power desc, sections "
                     "1/32,1/16,1/8,1/4 with multipliers 6,4,2,1.1,1 split across boundaries, lower weighted median; status rule on quorum/half): "
